@@ -7,9 +7,7 @@ NA = {
  "C02": "Equality of the accept/reject decision with FIPS 204 Verify needs a spec-literal reference and boundary inputs that must be constructed (norm exactly gamma1-beta, weight exactly omega, aligned NTT residues); canonical channel faults never produce them. Pure function of its input.",
  "C03": "Byte-equality with FIPS 204 Sign needs an independent reference implementation; the only seam clause (the 32 bytes come from the caller's generator and nothing else varies) is observed inside C12 (I4, I6) but cannot stand for the property.",
  "C04": "Equality with KeyGen_internal needs a reference implementation; try_keygen_with_rng and keygen_from_seed share one code path, so comparing them to each other decides none of the rare-sample cases the property is about. Pure function of the seed.",
- "C06": "Domain separation is a statement about alternative parses of adversarially aligned byte strings; crafting them is input construction, not a channel fault.",
  "C07": "A pure function of the context length; no seam, fault or interleaving is involved.",
- "C08": "Canonicity of encodings is a for-all over byte strings and coefficient vectors with a combinatorial malformation space; needs structure-aware input generation and crate-private codec access, i.e. fuzzing/enumeration of inputs, not simulation.",
  "C15": "Exactness of scalar arithmetic on whole domains is exhaustive-enumeration/proof territory; there is no nondeterminism or fault for a simulator to own.",
  "C18": "NTT product correctness and 32-bit overflow freedom for adversarial vectors is algebraic; needs constructed inputs and a big-integer reference, no seam involved.",
 }
@@ -39,6 +37,14 @@ CHECKS = {
    "World simulation (originator, store, channel, remote party in one process): seeded histories in which private- and public-key replicas are persisted, reloaded after restarts, cloned and derived any number of times, messages are signed in all four modes and delivered to every public-key replica alive. Fault-free configuration oracle: an intact tuple signed by an honest private-key replica verifies under every honest public-key replica, whatever the provenance chain of either; message/context length classes include empty, SHAKE rate boundaries, multi-block, 254 and 255.",
    WORLD_NOTE + " The for-all over messages/seeds is sampled; the rare-event cases of the rejection loop are reached only as often as the seeded volume allows (reported as reach probes in C05).",
    "deterministic simulation: seeded lifecycle histories with restarts, replica refinement against a reference pair", "DESIGN.md 4.7"),
+ "C06": chk("C06", "exploration",
+   "World simulation with misrouting and framing faults on the channel: an intact signed tuple is delivered (a) to the verifier endpoint of every other mode / pre-hash function, (b) with the concatenation context||message split at another boundary (the classic length-prefix corruption), (c) as the formatted pre-hash input OID||PH(M) presented to the pure ML-DSA endpoint as the message. Every honest public-key replica must reject. Catches a missing context-length byte or a missing domain byte even when signer and verifier share the defect.",
+   WORLD_NOTE + " Messages crafted by an adversary to mimic the other mode's formatted input beyond the mechanical OID||PH(M) case, and alignments that must be searched for, are not reached.",
+   "deterministic simulation: misrouting / re-framing channel faults over seeded lifecycle histories", "DESIGN.md 4.7"),
+ "C08": chk("C08", "fault_enumeration",
+   "Channel-fault simulation on honest signatures with a reference model of Algorithm 21: every single-bit flip (whole signature on a few, hint section on many signatures), stuck-at bytes, byte reorder and byte duplication inside the hint section (the channel's reorder/duplicate faults at byte granularity), seeded multi-bit rot. Oracle, both directions: sigDecode (verif-hooks wrapper) accepts iff the model accepts the hint section (unsorted or repeated indices, decreasing or excessive counts, non-zero unused bytes are each reached tens of thousands of times), and every accepted byte string re-encodes to itself.",
+   "Decides the decoding and re-encoding clauses on byte strings reachable by canonical channel faults from honest signatures (not exhaustive over all byte strings at reduced parameters, as the quantifier also asks); the bijection clause for key encodings is exercised at API level by C09. Needs the add-only feature verif-hooks. Trusts the 25-line model (validated on every honest signature).",
+   "deterministic simulation: channel fault enumeration vs reference model of the hint encoding", "DESIGN.md 4.8"),
  "C09": chk("C09", "exploration",
    "World simulation with a fault-injecting store: every private/public key loaded from the store - intact, or after bit rot, stuck-at bytes, lost writes (all 0x00 / all 0xFF: the extremal patterns of the statement) and torn writes - must serialise back to the very bytes it was loaded from, public keys must always load, and after any number of restarts an honest reloaded private key signs byte-identically to the never-restarted reference for the same randomness while an honest reloaded public key decides like the reference on every delivered tuple (valid and faulted).",
    WORLD_NOTE,
@@ -78,7 +84,7 @@ CHECKS = {
 }
 
 def main():
-    claimed = [p for p in ("C12", "C05", "C10", "C16", "C14", "C17", "C13", "C09", "C11", "C01") if p in CHECKS]
+    claimed = [p for p in ("C12", "C05", "C10", "C16", "C14", "C17", "C13", "C09", "C11", "C01", "C08", "C06") if p in CHECKS]
     hooks_commits = []
     try:
         out = subprocess.run(["git", "-C", "/repo", "log", "--format=%h %s"], stdout=subprocess.PIPE, text=True).stdout
@@ -90,13 +96,13 @@ def main():
         "setup_cmd": "./check setup",
         "hooks": {
             "guard": "cargo feature `verif-hooks` (non-default)",
-            "enable": "harness crates depend on fips204 with features = [\"verif-hooks\"] (only the C14 kernel-alone probes need it); all other seams (RNG trait, libc `syscall` symbol, drop_in_place, byte arrays) need no hook",
+            "enable": "harness crates depend on fips204 with features = [\"verif-hooks\"] (the C14 kernel-alone probes and the C08 decode/re-encode oracle need it); all other seams (RNG trait, libc `syscall` symbol, drop_in_place, byte arrays) need no hook",
             "baseline_off_cmd": "cd /repo && cargo test --workspace --no-fail-fast --offline",
             "source_commits": hooks_commits,
             "add_only": True,
         },
         "engines": [
-            {"name": "fipsim", "path": "/verif/sim", "serves_properties": ["C12", "C05", "C10", "C16", "C17", "C13", "C09", "C11", "C01"],
+            {"name": "fipsim", "path": "/verif/sim", "serves_properties": ["C12", "C05", "C10", "C16", "C17", "C13", "C09", "C11", "C01", "C08", "C06"],
              "kind_free_text": "seeded deterministic simulator: SimRng device, SimKernel (getrandom(2) via the libc syscall symbol), object arena, channel/store fault injector; replay from self-contained JSON"},
             {"name": "fipsim-ct", "path": "/verif/ct", "serves_properties": ["C14"],
              "kind_free_text": "trace-recording build of the same simulator (SanitizerCoverage edge + load/store callbacks); oracle = equality of event histories across RNG values"},
